@@ -44,14 +44,11 @@ func accVerdict(c *hx.Ctx, what string, o oracle.Outcome, got hx.State, p int64,
 }
 
 // c02QuoTopPrecision: one inexact quotient of small integers per run into a receiver whose precision lies in the last
-// 40 below MaxPrec (about 3.5 GB and ten seconds: the division works by the precision). The quotient n/d with d = 3, 7 or 9
+// 18 below MaxPrec (about 3.5 GB and ten seconds: the division works by the precision). The quotient n/d with d = 3, 7 or 9
 // never terminates: the result must fill the precision (MinPrec = Prec), be Below or Above as the mode says, and start
 // with the right digits.
 func c02QuoTopPrecision(c *hx.Ctx, r *hx.RNG) {
-	p := uint(maxPrec - r.Range(0, 40))
-	if r.Bool() {
-		p = uint(maxPrec - r.Range(0, 19))
-	}
+	p := uint(maxPrec - r.Range(0, 17)) // within a word of MaxPrec: prec + 18 does not fit 32 bits
 	den := int64([]int{3, 7, 9}[r.Intn(3)])
 	num := int64(r.Range(1, int(den)-1))
 	if den == 9 && num%3 == 0 {
